@@ -113,7 +113,7 @@ impl Property for C13 {
         tier.pick(30_000, 1_000_000)
     }
     fn strategy(&self, tier: Tier) -> BoxedStrategy<crate::scale::WithMid<RawSem>> {
-        crate::scale::with_mid(raw_sem(tier.pick(3, 4), 2..=2, 4, tier.pick(10, 16)), 99, 1, tier.pick(600, 2500))
+        crate::scale::with_mid(raw_sem(tier.pick(3, 4), 2..=2, 4, tier.pick(10, 16)), tier.pick(99, 249), 1, tier.pick(600, 2500))
     }
     fn check_raw(&self, raw: &crate::scale::WithMid<RawSem>) -> Verdict {
         let raw = match raw {
